@@ -12,6 +12,11 @@ def sh(c):
 
 
 seeds = sorted(d for d in os.listdir(V + "/seeded") if os.path.exists(V + "/seeded/" + d + "/meta.json"))
+# usage: tools/make_corpus.py [pattern ...] — with patterns only the seeds whose id contains one of them are run and
+# their groups are ADDED to the corpus files (groups already present are kept)
+PATTERNS = sys.argv[1:]
+if PATTERNS:
+    seeds = [d for d in seeds if any(pt in d for pt in PATTERNS)]
 evbak = tempfile.mkdtemp(); shutil.copytree(V + "/evidence", evbak, dirs_exist_ok=True)
 out = {}
 for s in seeds:
@@ -48,7 +53,13 @@ for s in seeds:
         sh("git -C /repo checkout -- . && git -C /repo clean -fdq -- .")
 os.makedirs(V + "/corpus", exist_ok=True)
 for p, groups in out.items():
-    open("%s/corpus/%s.txt" % (V, p), "w").write("\n\n".join(groups) + "\n")
+    path = "%s/corpus/%s.txt" % (V, p)
+    if PATTERNS and os.path.exists(path):
+        old = [g for g in open(path).read().split("\n\n") if g.strip()]
+        have = {g.split("\n")[0] for g in old}
+        groups = old + [g for g in groups if g.split("\n")[0] not in have]
+        groups = [g.rstrip("\n") for g in groups]
+    open(path, "w").write("\n\n".join(groups) + "\n")
     print(p, len(groups))
 shutil.copytree(evbak, V + "/evidence", dirs_exist_ok=True); shutil.rmtree(evbak)
 sh("cd %s && ./check C16 quick; ./check C20 quick; ./check C09 quick" % V)
